@@ -2,6 +2,7 @@
 from __future__ import annotations
 
 from .. import configs, env
+from .. import refcodec as rc_
 from .. import refsensors as rs
 from ..runner import Part
 
@@ -15,7 +16,7 @@ RULE = ("the C15 configuration space (model tags x rated power x all subsets of 
 ASSUMPTIONS = ["the simulated inverter answers every read with exactly 2 x count payload bytes",
                "values decoded from a refused block's predecessor response would also show as foreign reads in C12/C15; this "
                "check decides only 'no reported value is fabricated from missing bytes'"]
-MUST = ["connect_while_inverter_silent", "offered_sensors_checked", "single_reads_observed", "overlapping_polls", "poll_with_transient_rejection", "poll_after_failed_device_info", "tcp_wrong_mbap_length", "configs_run", "reads_observed", "block_running", "block_battery", "block_battery2", "block_meter_basic",
+MUST = ["fallback_read_lost_for_another_reason", "connect_while_inverter_silent", "offered_sensors_checked", "single_reads_observed", "overlapping_polls", "poll_with_transient_rejection", "poll_after_failed_device_info", "tcp_wrong_mbap_length", "configs_run", "reads_observed", "block_running", "block_battery", "block_battery2", "block_meter_basic",
         "block_meter_ext", "block_meter_ext2", "block_mppt", "block_dt_running", "block_dt_meter", "block_es_runtime"]
 EXHAUSTIVE = {"quick": False, "thorough": True}
 
@@ -116,6 +117,47 @@ def check_config(cfg, part, rl, port=8899, mbap=None, rerun_info=False):
             part.count("single_reads_observed")
         if fam == "ES":
             return
+        # a fresh object whose FIRST poll hits a refused block and then loses the follow-up (smaller) read for another reason
+        # (no answer / busy): the polls after that must again decode only what they fetch and offer only what they fetch
+        for how in ("silent", "busy"):
+            inv3 = type(inv)("inv0", port, 0, 1, 0)
+            await inv3.read_device_info()
+            inv3.sensors()
+            fallback_reads = [(36000, 58), (36000, 45), (30195, 15)]
+            armed = {"on": True}
+            orig_handle = sim.handle
+
+            def handle(req, kind, _o=orig_handle):
+                if armed["on"] and req["kind"] == "read" and (req["reg"], req.get("count")) in fallback_reads:
+                    armed["on"] = False
+                    if how == "silent":
+                        return None
+                    return (rc_.tcp_exception if kind == "tcp" else rc_.rtu_exception)(req, 6)
+                return _o(req, kind)
+            sim.handle = handle
+            windows = None
+            for _ in range(4):
+                n0 = len(sim.log)
+                rl.start()
+                try:
+                    await inv3.read_runtime_data()
+                    windows = [(r[2]["reg"], r[2]["count"]) for r in sim.log[n0:] if r[2]["kind"] == "read"]
+                except g.InverterError:
+                    pass
+                for entry in rl.stop():
+                    if entry[3] < entry[2]:
+                        res_["short_reads"].append((60,) + entry)
+            sim.handle = orig_handle
+            part.count("fallback_read_lost_for_another_reason")
+            if windows:
+                for sn_ in inv3.sensors():
+                    size_ = getattr(sn_, "size_", 0)
+                    lo_, hi_ = sn_.offset, sn_.offset + (size_ + 1) // 2 - 1
+                    if size_ > 0 and not any(a <= lo_ and hi_ <= a + c - 1 for a, c in windows) and sn_.id_ not in ("apparent_power2", "apparent_power3"):
+                        part.violate(f"C14/{fam}/after-lost-fallback-read/read-past-window/{sn_.id_}",
+                                     f"{tag}: first poll: refused block, then the smaller read {how}; afterwards sensors() offers {sn_.id_} at {lo_}..{hi_} "
+                                     f"but the polls fetch only {[(a, a + c - 1) for a, c in windows]}", case)
+                        break
         for gap in (0.05, 0.15, 0.3):
             inv2 = type(inv)("inv0", port, 0, 1, 0)
             await inv2.read_device_info()
